@@ -45,8 +45,9 @@ ASSUMPTIONS = [
     "VHDL semantics as implemented by cv.vhdl",
 ]
 
-SKELETONS = ["if", "if_else", "if_elif", "if_elif_else", "match", "match_default", "forbreak", "forbreak_else"]
-N_ARMS = {"if": 1, "if_else": 2, "if_elif": 2, "if_elif_else": 3, "match": 2, "match_default": 3, "forbreak": 2, "forbreak_else": 3}
+SKELETONS = ["if", "if_else", "if_elif", "if_elif_else", "match", "match_default", "forbreak", "forbreak_else", "match1", "forbreak1"]
+N_ARMS = {"if": 1, "if_else": 2, "if_elif": 2, "if_elif_else": 3, "match": 2, "match_default": 3, "forbreak": 2, "forbreak_else": 3,
+          "match1": 1, "forbreak1": 1}
 EXHAUSTIVE = {"thorough": False, "quick": False}
 
 
@@ -142,10 +143,12 @@ def build_cell(cell):
         s = {"k": "if", "arms": [[conds[k], arm(k)] for k in range(n_if)], "else": arm(n - 1) if has_else else None}
     elif sk.startswith("match"):
         has_else = sk == "match_default"
-        s = {"k": "match", "e": ["in", "iv1"], "cases": [[k + 1, arm(k)] for k in range(2)], "default": arm(2) if has_else else None}
+        s = {"k": "match", "e": ["in", "iv1"], "cases": [[k + 1, arm(k)] for k in range(1 if sk == "match1" else 2)],
+             "default": arm(2) if has_else else None}
     else:
         has_else = sk == "forbreak_else"
-        s = {"k": "forbreak", "items": [[conds[k], arm(k)] for k in range(2)], "else": arm(2) if has_else else None}
+        s = {"k": "forbreak", "items": [[conds[k], arm(k)] for k in range(1 if sk == "forbreak1" else 2)],
+             "else": arm(2) if has_else else None}
     all_paths_define = has_else and mask == (1 << n) - 1
     inner = [s]
     if nest == "outer_if":
